@@ -392,6 +392,7 @@ func checkPathReadable(pathID int, path string, info os.FileInfo, list *[]*sourc
 		return simpleTrzszError("Open [%s] error: %v", path, err)
 	}
 	files, err := fileObj.Readdir(-1)
+	fileObj.Close()
 	if err != nil {
 		return simpleTrzszError("Readdir [%s] error: %v", path, err)
 	}
